@@ -1448,10 +1448,6 @@ class StorageBackendBase(StorageBackend, ABC):
         if self.read_only:
             return
 
-        if self._memory_cache:
-            # Write through to memory cache
-            self._memory_cache.put(memento, result, has_result=True)
-
         # Write data
         result_type = memento.invocation_metadata.result_type
         content_key = self.codec.store(
@@ -1463,6 +1459,11 @@ class StorageBackendBase(StorageBackend, ABC):
 
         # Write metadata
         self._metadata_source.put_memento(memento)
+
+        if self._memory_cache:
+            # Write through to memory cache, once the store has accepted the result: if the
+            # write fails, the cache must not claim that the call is memoized.
+            self._memory_cache.put(memento, result, has_result=True)
 
     def read_metadata(
         self,
